@@ -335,3 +335,37 @@ func Alias(v *ty.Val) *ty.Val {
 	}
 	return out
 }
+
+// CollidingKeys returns distinct values of the (comparable) key type K whose fmt %v renderings coincide —
+// `{a b c}` for {"a b","c"} and {"a","b c"}, `[  ]` for {""," "} and {" ",""} — or nil when K has no two
+// string components next to each other. A printer that finds keys back through their printed form folds
+// such keys into one.
+func CollidingKeys(env *ty.Env, K *ty.Ty, base *ty.Val) []*ty.Val {
+	u := env.Under(K)
+	var pos []int
+	switch u.K {
+	case ty.Array:
+		if eb := env.Under(u.Elem); eb.K == ty.Basic && eb.B == "string" && u.N >= 2 {
+			pos = []int{0, 1}
+		}
+	case ty.Struct:
+		for i := 0; i+1 < len(u.Fields); i++ {
+			a, b := env.Under(u.Fields[i].T), env.Under(u.Fields[i+1].T)
+			if a.K == ty.Basic && a.B == "string" && b.K == ty.Basic && b.B == "string" {
+				pos = []int{i, i + 1}
+				break
+			}
+		}
+	}
+	if pos == nil || base == nil || len(base.Elems) <= pos[1] {
+		return nil
+	}
+	var out []*ty.Val
+	for _, pr := range [][2]string{{"a b", "c"}, {"a", "b c"}, {"", " "}, {" ", ""}, {"a b c", ""}} {
+		c := base.Clone()
+		c.Elems[pos[0]] = sv(pr[0])
+		c.Elems[pos[1]] = sv(pr[1])
+		out = append(out, c)
+	}
+	return out
+}
